@@ -169,6 +169,7 @@ type PathLine struct {
 	Err  string    `json:"err"`
 	Gen  bool      `json:"gen"`
 	Geo  bool      `json:"geo"`
+	Ints bool      `json:"ints"` // statistics only: every number of the input is an integer (drift comparison applies)
 	In   lib.Bytes `json:"in"`
 	Out  lib.Bytes `json:"out"`
 }
@@ -466,6 +467,12 @@ func project(b []byte, mode string) ([]Ev, [][]byte, bool, string) {
 var numRe = regexp.MustCompile(`^[+-]?(?:\d+\.?\d*|\.\d+)(?:[eE][+-]?\d+)?`)
 
 func fitsFixedPoint(d []byte) bool {
+	fits, _ := rangeInfo(d)
+	return fits
+}
+
+// rangeInfo: does the input fit the fixed-point range, and K = decimals of its most precise number.
+func rangeInfo(d []byte) (bool, int) {
 	arity := map[byte]int{'M': 2, 'L': 2, 'T': 2, 'H': 1, 'V': 1, 'S': 4, 'Q': 4, 'C': 6, 'A': 7, 'Z': 0}
 	K := 0
 	maxabs := 0.0
@@ -551,10 +558,10 @@ func fitsFixedPoint(d []byte) bool {
 				i++
 				continue
 			}
-			return true
+			return true, -1
 		default:
 			if cmd == 0 {
-				return true // not path data: the relation says so itself
+				return true, -1 // not path data: the relation says so itself
 			}
 			if (cmd == 'A' || cmd == 'a') && (len(args)%7 == 3 || len(args)%7 == 4) && (c == '0' || c == '1') {
 				args = append(args, float64(c-'0'))
@@ -562,7 +569,7 @@ func fitsFixedPoint(d []byte) bool {
 			} else {
 				m := numRe.Find(d[i:])
 				if m == nil {
-					return true
+					return true, -1
 				}
 				s := string(m)
 				mant, exp := s, 0
@@ -570,7 +577,7 @@ func fitsFixedPoint(d []byte) bool {
 					mant = s[:j]
 					e, err := strconv.Atoi(s[j+1:])
 					if err != nil || e > 400 || e < -400 {
-						return false
+						return false, -1
 					}
 					exp = e
 				}
@@ -580,7 +587,7 @@ func fitsFixedPoint(d []byte) bool {
 				}
 				f, err := strconv.ParseFloat(s, 64)
 				if err != nil || math.IsInf(f, 0) {
-					return false
+					return false, -1
 				}
 				if f != 0 {
 					if k := len(frac) - exp; k > K {
@@ -604,9 +611,9 @@ func fitsFixedPoint(d []byte) bool {
 		}
 	}
 	if K > 8 {
-		return false
+		return false, K
 	}
-	return maxabs*math.Pow(10, float64(K)) < 4.5e8
+	return maxabs*math.Pow(10, float64(K)) < 4.5e8, K
 }
 
 // ---- cases ------------------------------------------------------------------------------------
@@ -633,14 +640,16 @@ func emitPaths(tw *lib.TraceWriter, c Case, din, dout [][]byte, okDoc bool, why 
 			why = fmt.Sprintf("%d d attributes in, %d out", len(din), len(dout))
 		}
 		for i, p := range din {
+			fits, k := rangeInfo(p)
 			tw.Emit(PathLine{Kind: "path", ID: c.ID, Sub: i, Mode: c.Mode, OK: false, Err: why, Gen: c.Gen,
-				Geo: fitsFixedPoint(p), In: p, Out: lib.Bytes{}})
+				Geo: fits, Ints: fits && k == 0, In: p, Out: lib.Bytes{}})
 		}
 		return
 	}
 	for i := range din {
+		fits, k := rangeInfo(din[i])
 		tw.Emit(PathLine{Kind: "path", ID: c.ID, Sub: i, Mode: c.Mode, OK: true, Gen: c.Gen,
-			Geo: fitsFixedPoint(din[i]), In: din[i], Out: dout[i]})
+			Geo: fits, Ints: fits && k == 0, In: din[i], Out: dout[i]})
 	}
 }
 
